@@ -53,6 +53,14 @@ def coq_files():
         p = os.path.join(COQ, d)
         if os.path.isdir(p):
             res += [os.path.join(p, f) for f in sorted(os.listdir(p)) if f.endswith(".v")]
+    # files still being written (listed in .git/info/exclude, never part of a commit) are not part of the development
+    try:
+        out = subprocess.run(["git", "-C", VERIF, "check-ignore"] + res, capture_output=True, text=True).stdout
+        ignored = set(os.path.abspath(os.path.join(VERIF, l.strip())) if not os.path.isabs(l.strip()) else l.strip()
+                      for l in out.splitlines() if l.strip())
+        res = [f for f in res if os.path.abspath(f) not in ignored]
+    except Exception:
+        pass
     return res
 
 
